@@ -350,3 +350,41 @@ Proof.
   - apply hann_symmetric. - apply hamming_symmetric. - apply rect_symmetric. - apply bartlett_symmetric.
   - apply triangular_symmetric. - apply blackman_symmetric. - apply cos_symmetric.
 Qed.
+
+Lemma row_range01_wsymm e size a : In e win_table -> alpha_dom e a ->
+  all01 (winR (row_template e Wsymm) (w_formula e) size a).
+Proof.
+  intros He [Hb Hc]. apply In_table in He.
+  destruct He as [->|[->|[->|[->|[->|[->| ->]]]]]]; cbn [row_template w_formula w_distinct e_hann e_hamming e_rect
+     e_bartlett e_triangular e_blackman e_cos].
+  - apply hann_range01. - apply hamming_range01. - apply rect_range01. - apply bartlett_range01.
+  - apply triangular_range01. - apply blackman_range01; auto. - apply cos_range01; auto.
+Qed.
+
+Lemma closed_forms size a :
+  (winR tmpl_window f_hann size a = doc_window doc_hann size /\
+   winR tmpl_wsymm f_hann size a = doc_wsymm doc_hann size) /\
+  (winR tmpl_window f_hamming size a = doc_window doc_hamming size /\
+   winR tmpl_wsymm f_hamming size a = doc_wsymm doc_hamming size) /\
+  winR tmpl_window f_rect size a = doc_window doc_rect size /\
+  (winR tmpl_window f_bartlett size a = doc_window doc_bartlett size /\
+   winR tmpl_wsymm f_bartlett size a = doc_wsymm doc_bartlett size) /\
+  (winR tmpl_window f_triangular size a = doc_window doc_triangular size /\
+   winR tmpl_wsymm f_triangular size a = doc_wsymm doc_triangular size) /\
+  (winR tmpl_window f_blackman size a = doc_window (doc_blackman a) size /\
+   winR tmpl_wsymm f_blackman size a = doc_wsymm (doc_blackman a) size) /\
+  (winR tmpl_window f_cos size a = doc_window (doc_cos a) size /\
+   winR tmpl_wsymm f_cos size a = doc_wsymm (doc_cos a) size).
+Proof.
+  repeat apply conj; first [apply hann_closed_form|apply hamming_closed_form|apply rect_closed_form
+    |apply bartlett_closed_form|apply triangular_closed_form|apply blackman_closed_form|apply cos_closed_form].
+Qed.
+
+(* the default value of alpha (params_def) lies inside the domain of its row *)
+Lemma default_alpha_in_dom e d : In e win_table -> w_default e = Some d -> alpha_dom e (wevalR d 0 0 0).
+Proof.
+  intros He Hd. apply In_table in He.
+  destruct He as [->|[->|[->|[->|[->|[->| ->]]]]]]; cbn in Hd; try discriminate Hd;
+    inversion Hd; subst d; cbn; split; intro H;
+    first [lra | apply (f_equal w_names) in H; discriminate H].
+Qed.
